@@ -128,11 +128,12 @@ GiveUp(why) == /\ phase' = "idle" /\ stack' = <<>> /\ store' = store0 /\ store0'
 OpStart(e, t) == /\ phase = "idle" /\ ~Excluded(t)
                  /\ phase' = "scan" /\ envid' = e /\ stack' = <<Frame(t, "top")>> /\ store0' = store /\ store' = store
 
-\* a maximal run of ordinary characters is copied (cut at the limit)
+\* a run of ordinary characters is copied (maximal within a 512-character window, cut at the limit)
 OpPlain == /\ Scanning /\ Cur \notin Special
            /\ LET f == Top
-                  stop == {k \in f.pos + 1 .. Len(f.txt) : f.txt[k] \in Special}
-                  endx == IF stop = {} THEN Len(f.txt) ELSE SetMin(stop) - 1
+                  win  == Min2(Len(f.txt), f.pos + 512)
+                  stop == {k \in f.pos + 1 .. win : f.txt[k] \in Special}
+                  endx == IF stop = {} THEN win ELSE SetMin(stop) - 1
                   room == Limit - SetMin({Len(o) : o \in f.outs})
                   n == Min2(endx - f.pos, Max2(room, 1))
               IN SetTop(Adv(f, n, SubSeq(f.txt, f.pos + 1, f.pos + n), f.pos + n + 1))
